@@ -366,6 +366,7 @@ func genConc(prop string, seed uint64, tier string) *ConcScenario {
 		if tier == "thorough" {
 			maxTasks = 32
 		}
+		sc.TwoContainers = g.r.Bool(0.3)
 	case "C03":
 		g.mapContainer(sc, []string{"map"})
 	case "C04":
@@ -798,6 +799,19 @@ func (g *genCtx) c16Workload(sc *ConcScenario, hot int) {
 				default:
 					prog = append(prog, Op{K: MLoad, Key: k})
 				}
+			}
+		}
+		ph.Tasks = append(ph.Tasks, prog)
+	}
+	if g.r.Bool(0.04) {
+		// a reader that hammers an absent key (every-Nth-call logic needs many calls)
+		var prog []Op
+		n := 1030 + g.r.Intn(1100)
+		for j := 0; j < n; j++ {
+			if cacheFam {
+				prog = append(prog, Op{K: CGet, Key: 77})
+			} else {
+				prog = append(prog, Op{K: MLoad, Key: 77})
 			}
 		}
 		ph.Tasks = append(ph.Tasks, prog)
